@@ -765,20 +765,32 @@ class ParamScenario(BaseScenario):
             goods, bads = MEMBERS[member]
             value = r.choice(goods) if r.random() < 0.55 else r.choice(bads)
             how = r.choice(["register", "attr"])
+            batch = {member: value}
+            if how == "register" and r.random() < 0.4:
+                # several members in one call: one bad member refuses the call, and nothing of it may stay
+                for extra in r.sample(sorted(MEMBERS), 2):
+                    if extra not in batch:
+                        g2, b2 = MEMBERS[extra]
+                        batch[extra] = r.choice(g2) if r.random() < 0.6 else r.choice(b2)
+                if r.random() < 0.5:
+                    batch = dict(reversed(list(batch.items())))
+                sim.probe("register_several_members")
 
             def setter(obj):
                 def call():
                     if how == "register":
-                        obj.register({member: value})
+                        obj.register(dict(batch))
                     else:
                         setattr(obj, member, value)
                 return call
 
             ver_t, ver_a = verdict(setter(twin)), verdict(setter(aged))
-            what = f"{type(aged).__name__}.{'register({' + repr(member) + ': ' + repr(value) + '})' if how == 'register' else member + ' = ' + repr(value)}"
+            what = f"{type(aged).__name__}.{'register(' + repr(batch) + ')' if how == 'register' else member + ' = ' + repr(value)}"
             api = how
+            if len(batch) > 1:
+                discr = {**discr, "multi": True}
             if ver_a[0] == "accept":
-                ctx["members"].append((member, value))
+                ctx["members"].extend(batch.items())
             else:
                 sim.probe("form_member_rejected")
         self.compare(sim, what, ver_a, ver_t, {**discr, "api": api})
